@@ -91,15 +91,8 @@ def rule_a(ctx, init, tabs):
     env = {f.params[0]: me}
     for pn in f.params[1:]:
         env[pn] = False
-    res = None
-    for st in f.node.body:
-        try:
-            fo.stmt(st, env)
-        except (Refuse, Raised):
-            continue
-        except _Return as r_:
-            res = r_.value
-            break
+    from ..fold import fold_stmts, mentions_unknown
+    res, skipped = fold_stmts(fo, f.node.body, env)
 
     def leaf(x):
         t = repr(x)
@@ -137,9 +130,9 @@ def rule_a(ctx, init, tabs):
         img_arg = res.kw.get("img") if res.kw else (res.args[0] if res.args else None)
     got = grid(img_arg) if img_arg is not None else None
     want = [[f"P{r}{c}[<opaque roi R{r}{c}>]" for c in range(NC)] for r in range(NR)]
-    if got is None:
+    if got is None or (got != want and (skipped or mentions_unknown(img_arg))):
         ctx.ob(R, f.qname, "assemble: columns are concatenated horizontally inside, rows vertically outside, patches[row][col] throughout", False,
-               "block structure of the assembled array not found by the symbolic fold", f.node)
+               "block structure of the assembled array not found by the symbolic fold" + (f" ({len(skipped)} statement(s) outside the folding language, first: {skipped[0][1]})" if skipped else ""), f.node, evidence=False)
     else:
         ctx.ob(R, f.qname, "assemble: columns are concatenated horizontally inside, rows vertically outside, patches[row][col] throughout", got == want,
                f"a 2 x 3 patch grid is assembled as {got}; re-assembly needs {want}", f.node, evidence=True)
@@ -311,11 +304,8 @@ def _num_voxels_calls(m, init, grid=(2, 3)):
     env = {p[0]: so, p[1]: base, p[2]: list(grid)}
     if len(p) > 3:
         env[p[3]] = {"rel_overlap": Opaque("f", "REL")}
-    for st in init.node.body:
-        try:
-            fo.stmt(st, env)
-        except (Refuse, Raised):
-            continue
+    from ..fold import fold_stmts
+    fold_stmts(fo, init.node.body, env)
     calls.append(("__env__", env, so))
     return calls
 
@@ -341,7 +331,10 @@ def rule_e(ctx, init):
         if isinstance(v, list) and len(v) == 2 and not name.startswith("__") and all(not isinstance(x, (list, tuple, dict)) for x in v):
             cand[name] = v
     n = 0
+    from ..fold import mentions_unknown
     for name, v in sorted(cand.items()):
+        if mentions_unknown(v):
+            continue   # derives from a statement outside the folding language: nothing to judge
         texts = [nf(x) for x in v]
         if not any(tok in t for t in texts for tok in ("D0", "D1", "N0", "N1", "hx", "hy")):
             continue
@@ -424,12 +417,9 @@ def fold_tables(init, ctx_node=None):
     env = {p[0]: so, p[1]: base, p[2]: [2, 3]}
     if len(p) > 3:
         env[p[3]] = {"rel_overlap": Opaque("f", "REL")}
-    for st in init.node.body:
-        try:
-            fo.stmt(st, env)
-        except (Refuse, Raised):
-            continue
-    return {k: v for k, v in so.fields.items() if k in TABLES}
+    from ..fold import fold_stmts, mentions_unknown
+    fold_stmts(fo, init.node.body, env)
+    return {k: v for k, v in so.fields.items() if k in TABLES and not mentions_unknown(v)}
 
 
 def same_term(a, b):
